@@ -178,6 +178,7 @@ def run(ctx):
     C.settle_structural(ctx, ('case-structure', 'conversion', 'no-panic'), 'group-law')
     if not only or 'K' in only:
         K.run_harnesses(ctx, 'c01', tier_filter=True)
+        K.report_failures(ctx, 'group-law')
 
 
 def replay(ctx, path):
